@@ -381,6 +381,18 @@ def intValue (s : String) : Option Nat :=
   | '0' :: 'b' :: r => parseRadix 2 r
   | r => parseRadix 10 r
 
+/-- Look through redundant parentheses (`Parenthesized::expr`, repeatedly; `fuel` ≥ the nesting depth).
+`cast_first_match` falls back to `Expr::default()` (the literal `none`), which is neither an integer
+nor an array: `none` here. -/
+def unparen : Nat → ANode → Option ANode
+  | 0, _ => none
+  | fuel+1, x =>
+    if x.kind == .parenthesized then
+      match firstWhere x isExpr with
+      | some y => unparen fuel y
+      | none => none
+    else some x
+
 /-- `get_table_columns`. -/
 def tableColumns (fc : ANode) : Option Nat :=
   match lastWhere fc (·.kind == .args) with
@@ -390,7 +402,7 @@ def tableColumns (fc : ANode) : Option Nat :=
       if it.kind == .named then
         let name := ((firstWhere it (·.kind == .ident)).map ANode.text).getD ""
         if name == "columns" then
-          match lastWhere it isExpr with
+          match (lastWhere it isExpr).bind (fun x => unparen (x.depth + 1) x) with
           | some x =>
             if x.kind == .int then intValue x.text
             else if x.kind == .array then some ((x.children.filter (fun c => c.kind == .spread || isExpr c)).length)
